@@ -220,4 +220,7 @@ static void body(const Case &c, Result &r) {
 static Result run_case(const Case &c) {
   return run_isolated([&](Result &r) { body(c, r); });
 }
-int main(int argc, char **argv) { return vf_main<Case>(argc, argv, "C06", gen_case, run_case); }
+int main(int argc, char **argv) {
+  g_history_enabled = true;  // process-history mode 2 (harness/vf.h): a shadow of the case runs first in the same process
+  return vf_main<Case>(argc, argv, "C06", gen_case, run_case);
+}
